@@ -16,7 +16,7 @@ META = {
                    'set, parity) stages executed per step equals the definition of each scheme (Lie E O; Strang E O E; Yoshida 3 Strang blocks w1,w0,w1; '
                    'Kahan-Li 17 Strang blocks, palindromic) and every propagator set is built with coefficients [c/2, c]; coefficient tables satisfy their order '
                    'conditions (sum w = 1, sum w^3 = 0, sum w^5 = 0 for Kahan-Li) to 1e-12. (I) end to end: one and two steps of Lie and Strang equal the dense '
-                   'product of the same exponentials; normalisation divides by TT.norm(p); skew-Hermitian generators: 2-norm preserved given unitary exponentials.',
+                   'product of the same exponentials; normalisation divides by TT.norm(p); skew-Hermitian generators: 2-norm preserved given unitary exponentials. normalisation (all four schemes, normalize 0/1/2, stages replaced by the identity): every produced state == un-normalised state of its step / TT.norm(p) of it, one norm call per step, entries of the returned list are distinct objects holding the state of their own step; concrete replays run the unmodified integrators and check the unit Manhattan / Euclidean norm of every state densely.',
     'bounds': {'quick': 'chain lengths 2-4, local dimension 2 (one case 3), interaction rank 1-2, real and complex, 1-2 steps',
                'thorough': 'chain length 5, more inhomogeneous cases'},
     'outside': ['global convergence orders 1/2/4/6 (consequence of the verified composition + order conditions: Yoshida 1990, Kahan-Li 1997)',
@@ -336,6 +336,7 @@ def _norm_grid(tier):
             for d in (2, 3):
                 out.append({'scheme': scheme, 'normalize': normalize, 'd': d, 'cplx': False, 'steps': 2})
         out.append({'scheme': scheme, 'normalize': 2, 'd': 2, 'cplx': True, 'steps': 1})
+        out.append({'scheme': scheme, 'normalize': 0, 'd': 2, 'cplx': False, 'steps': 2})
     return out
 
 
@@ -352,6 +353,34 @@ def normalisation(ctx, scheme, normalize, d, cplx, steps):
     sx = {'rows': [n] * d, 'cols': [1] * d, 'ranks': [1] + [2] * (d - 1) + [1]}
     lo = 0 if normalize == 1 else None          # Manhattan norm: documented for non-negative entries
     label = '%s: every produced state has unit %d-norm' % (scheme, normalize)
+    if normalize == 0:
+        # list structure with the stages replaced by the identity: every entry is a distinct object holding the state of its own step
+        from symtt import state as _st, lapack as _lp
+        if ctx.sym:
+            _st.reset()
+            _lp.set_policy(_lp.TrivPolicy())
+        S, L, I, M = _components(ctx, d, n, 1, cplx, True)
+        h = ctx.scalar('h', lo=(0,))
+        x0 = TT(mk_cores(ctx, 'x', sx, cplx))
+        xd = D.as_matrix(D.tt_full(ctx, mk_cores(ctx, 'x', sx, cplx)), d)
+        real_stage = getattr(ode, '__splitting_stage')
+        cnt = [0]
+
+        def scale_stage(K, indices, tmp, threshold, max_rank):
+            cnt[0] += 1
+            return tmp
+        setattr(ode, '__splitting_stage', scale_stage)
+        try:
+            sol = getattr(ode, scheme)(S, L, I, M, x0, h, steps, threshold=0, max_rank=50, normalize=0)
+        finally:
+            setattr(ode, '__splitting_stage', real_stage)
+        ctx.check('%s: steps + 1 distinct state objects, the first is the initial value' % scheme,
+                  len(sol) == steps + 1 and sol[0] is x0 and len(set(id(t) for t in sol)) == steps + 1 and cnt[0] > 0)
+        for k in range(1, len(sol)):
+            ctx.eq('%s: with identity stages state %d == initial value' % (scheme, k), D.as_matrix(sol[k].full(), d), xd)
+            ctx.check('%s: state %d shares no core array with another entry' % (scheme, k),
+                      not any(a is b for j in range(len(sol)) if j != k for a in sol[k].cores for b in sol[j].cores))
+        return
     if ctx.mode == 'conc':
         S, L, I, M = _components(ctx, d, n, 1, cplx, True)
         if normalize == 1:
